@@ -23,7 +23,7 @@ use crate::engine::*;
 use crate::models::{hash_for, Hash20};
 use crate::{vensure, vfail};
 
-pub const RULE: &str = "(schedules) small programs - optional sequential prefix (e.g. a torrent whose only peer is about to expire), then 2-3 threads x 1-3 operations from {announce (any event / left / deadline), scrape of 1-2 hashes, clean(now)} over 1-2 torrents (same or different shard) and <= 3 peers - run on real threads against one shared TorrentMaps while a probe handler (feature verif) parks every thread at the lock-free gaps of announce, scrape and clean and at operation boundaries, so exactly one thread runs and the harness owns the schedule: all interleavings are enumerated by DFS when there are <= 4000, otherwise 4000 are sampled with generated decisions; (stress) bursts of 4 free-running threads x 6 generated operations on 3 torrents / 6 peers, every operation stamped with invocation/response tickets. Oracle: per torrent (linearizability is compositional; scrape and clean are split per torrent as the property states) a Wing-Gong search must find a sequential order of the operations that respects real-time order and reproduces every recorded reply and the final quiescent observation under reference model S; a burst whose threads make no progress for 10 s with all of them blocked is a deadlock. non-trivial (schedules) = a clean's phase-2 step for a shard ran while an announce for a torrent of that shard was parked between its two lock acquisitions, or two operations on one torrent overlapped; (stress) = some operations on one torrent overlapped in real time; distinct = distinct (program, schedule) / distinct burst";
+pub const RULE: &str = "(schedules) small programs - optional sequential prefix (e.g. a torrent whose only peer is about to expire), then 2-3 threads x 1-3 operations from {announce (any event / left / deadline), scrape of 1-2 hashes, clean(now)} over 1-2 torrents (same or different shard) and <= 3 peers - run on real threads against one shared TorrentMaps while a probe handler (feature verif) parks every thread at the lock-free gaps of announce, scrape and clean and at operation boundaries, so exactly one thread runs and the harness owns the schedule: all interleavings are enumerated by DFS when there are <= 600 (quick) / 3000 (thorough), otherwise that many are sampled with generated decisions; (stress) bursts of 4 free-running threads x 6 generated operations on 3 torrents / 6 peers, every operation stamped with invocation/response tickets. Oracle: per torrent (linearizability is compositional; scrape and clean are split per torrent as the property states) a Wing-Gong search must find a sequential order of the operations that respects real-time order and reproduces every recorded reply and the final quiescent observation under reference model S; a burst whose threads make no progress for 10 s with all of them blocked is a deadlock. non-trivial (schedules) = a clean's phase-2 step for a shard ran while an announce for a torrent of that shard was parked between its two lock acquisitions, or two operations on one torrent overlapped; (stress) = some operations on one torrent overlapped in real time; distinct = distinct (program, schedule) / distinct burst";
 
 #[derive(Debug, Clone, Serialize, Deserialize, PartialEq)]
 pub enum POp {
@@ -928,9 +928,9 @@ pub fn run(ctx: &mut Ctx) {
         ProgramCase { program: lost_announce_program(false), limit: 20_000, sample_seed: 2 },
     ];
     ctx.run_enum("lost-announce-scenario", fixed, true, prop_program);
-    let limit = tier.pick(600, 4000);
+    let limit = tier.pick(600, 3000);
     let seed = ctx.seed;
-    ctx.run_prop("programs", tier.pick(160, 4000), move || program().prop_map(move |program| ProgramCase { program, limit, sample_seed: seed }), prop_program);
+    ctx.run_prop("programs", tier.pick(160, 1200), move || program().prop_map(move |program| ProgramCase { program, limit, sample_seed: seed }), prop_program);
     ctx.require_label("programs", "clean-phase2-during-parked-announce", 0.2);
     ctx.require_label("programs", "overlapping-ops-on-one-torrent", 0.5);
     ctx.require_label("programs", "all-schedules-enumerated", 0.3);
